@@ -535,6 +535,37 @@ class FnEmitter:
                 edits.append(Edit(start, end, func=mk, rule='R2'))
                 self.fire('R2', 'select! with %d arms' % len(arms))
 
+        # --- R12: `if C { continue; }` as a direct statement of a `for` body -> `if !(C) { <rest of the body> }`
+        #     (Verus: "for-loops do not yet support continue"); same control flow, no statement added or removed
+        for (k12, o12, c12, _l12) in find_loops(sub):
+            k12 += base; o12 += base; c12 += base
+            if toks[k12].text != 'for':
+                continue
+            z = o12 + 1
+            while z < c12:
+                tz = toks[z]
+                if tz.text in ('{', '(', '['):
+                    z = match_close(toks, z) + 1
+                    continue
+                if tz.kind == 'ident' and tz.text == 'if' and toks[z - 1].text in ('{', '}', ';'):
+                    # condition up to the block
+                    y = z + 1
+                    while toks[y].text != '{':
+                        if toks[y].text in ('(', '['):
+                            y = match_close(toks, y)
+                        y += 1
+                    yc = match_close(toks, y)
+                    only_continue = (yc == y + 3 and toks[y + 1].text == 'continue' and toks[y + 2].text == ';')
+                    has_else = toks[yc + 1].kind == 'ident' and toks[yc + 1].text == 'else'
+                    if only_continue and not has_else:
+                        cond = src[toks[z + 1].start:toks[y - 1].end]
+                        edits.append(Edit(tz.start, toks[yc].end, 'if !(%s) {' % cond, rule='R12'))
+                        edits.append(Edit(toks[c12].start, toks[c12].start, '} ', rule='R12'))
+                        self.fire('R12', '`if %s { continue; }` in a for body -> guard around the rest of the body' % re.sub(r'\s+', ' ', cond))
+                    z = yc + 1
+                    continue
+                z += 1
+
         # --- R6: let x = 'l: loop { .. break 'l E; .. };
         loops = find_loops(sub)
         # loops for which the template has no clause at all: nothing is known about them beyond the verifier's defaults, so a
@@ -1194,6 +1225,8 @@ class Generator:
                 if sg[0] != 'fn':
                     continue
                 for c in sg[1].clauses:
+                    if self.ablate.endswith('#*') and c.kind == 'ensures' and c.cid.startswith(self.ablate[:-1] + 'ensures.'):
+                        c.text = 'true'     # function-level ablation: the whole postcondition at once (redundant clauses hide each other)
                     if c.cid == self.ablate:
                         if c.kind == 'ensures' or c.kind.startswith('loop_invariant') or c.kind == 'loop_ensures':
                             c.text = 'true'
